@@ -281,9 +281,50 @@ def gen_case(rng, idx):
         ln += 10
     if ss:
         lines += ["SAVE solid_solutions 1", "DUMP", " -solid_solutions 1"]
+    # follow-up calculations on the SAME model (same solution, same phase list, new targets / amounts / restrictions):
+    # prep() then reuses the equation system (check_same_model -> quick_setup) instead of rebuilding it
+    stages = [pps]
+    extra_defs = []
+    if rel_ex is None and rel_sf is None and rng.random() < 0.4:
+        gas_lines = [l for l in lines if l.startswith(" CO2(g) ") or l.startswith(" O2(g) ")]
+        for k in range(rng.choice([1, 1, 2])):
+            num = k + 2
+            pk = []
+            extra_defs.append("EQUILIBRIUM_PHASES %d" % num)
+            for p0 in pps:
+                r = rng.random()
+                target = p0["target"] if r < 0.15 else (0.0 if r < 0.4 else round(rng.uniform(-1.0, 1.0), 2))
+                r = rng.random()
+                init = p0["init"] if r < 0.3 else (0.0 if r < 0.5 else float(fmt(logu(rng, 1e-4, 1e-1))))
+                r = rng.random()
+                kind = p0["kind"] if r < 0.5 else ("normal" if r < 0.8 else ("dissolve_only" if r < 0.9 else "precipitate_only"))
+                l = " %s %s %s" % (p0["name"], fmt(target), fmt(init))
+                if kind != "normal":
+                    l += " " + kind
+                extra_defs.append(l)
+                pk.append({"name": p0["name"], "target": target, "init": init, "kind": kind, "force": False})
+            extra_defs += gas_lines
+            stages.append(pk)
+    if extra_defs:
+        k = lines.index("SELECTED_OUTPUT 1")
+        lines[k:k] = extra_defs
     lines.append("END")
+    has = lambda kw: any(l == kw for l in lines)
+    for num in range(2, len(stages) + 1):
+        lines += ["USE solution 1", "USE equilibrium_phases %d" % num]
+        if exch:
+            lines.append("USE exchange 1")
+        if surf:
+            lines.append("USE surface 1")
+        if ss:
+            lines.append("USE solid_solutions 1")
+        if has("REACTION 1"):
+            lines.append("USE reaction 1")
+        if has("REACTION_TEMPERATURE 1"):
+            lines.append("USE reaction_temperature 1")
+        lines.append("END")
     return {"id": "c%05d" % idx, "db": db, "text": "\n".join(lines) + "\n", "flags": ["dump"] if ss else [],
-            "meta": {"pps": pps, "exch": exch, "surf": surf, "ss": ss, "hp": hp, "temp": temp}}
+            "meta": {"pps": pps, "stages": stages, "exch": exch, "surf": surf, "ss": ss, "hp": hp, "temp": temp}}
 
 
 
@@ -343,6 +384,18 @@ def corpus():
     meta = {"pps": pps, "exch": {"sites": {"X": 0.12}, "sites_exact": {"X": [3, 25]}, "mode": "explicit"}, "surf": None, "ss": None, "hp": False, "temp": 25.0}
     text += _punch(pps, ["sysX"], ['SYS("X")'])
     out.append({"id": "corpus-explicit-exchange", "db": "phreeqc.dat", "text": text, "flags": [], "meta": meta})
+    # model reuse: three reaction calculations on the same solution and phase list with different targets / amounts /
+    # restrictions and no initial-solution calculation in between (prep() takes the quick_setup() path)
+    st1 = [_pp("Calcite", 0, 1), _pp("Gypsum", 0, 1)]
+    st2 = [_pp("Calcite", 0.5, 1), _pp("Gypsum", -0.3, 1)]
+    st3 = [_pp("Calcite", -0.25, 0.002, "dissolve_only"), _pp("Gypsum", 0.2, 0)]
+    text = ("SOLUTION 1\n temp 25\n pH 7\n Na 10\n Cl 10 charge\n Ca 1\n C(4) 2\n S(6) 1\n"
+            "EQUILIBRIUM_PHASES 1\n Calcite 0 1\n Gypsum 0 1\n CO2(g) -2 10\n"
+            "EQUILIBRIUM_PHASES 2\n Calcite 0.5 1\n Gypsum -0.3 1\n CO2(g) -2 10\n"
+            "EQUILIBRIUM_PHASES 3\n Calcite -0.25 0.002 dissolve_only\n Gypsum 0.2 0\n CO2(g) -2.5 10\n")
+    meta = {"pps": st1, "stages": [st1, st2, st3], "exch": None, "surf": None, "ss": None, "hp": False, "temp": 25.0}
+    text += _punch(st1) + "USE solution 1\nUSE equilibrium_phases 2\nEND\nUSE solution 1\nUSE equilibrium_phases 3\nEND\n"
+    out.append({"id": "corpus-model-reuse", "db": "phreeqc.dat", "text": text, "flags": [], "meta": meta})
     # finding F-C03-1: precipitate_only phase next to a diffuse-layer surface (minimised from seed 0)
     pps = [_pp("Goethite", 0.75, 0.0005, "precipitate_only")]
     text = ("SOLUTION 1\n Cl 10 charge\n Fe 0.5\nEQUILIBRIUM_PHASES 1\n Goethite 0.75 0.0005 precipitate_only\n"
@@ -401,7 +454,7 @@ def _num(v):
     return isinstance(v, float) and math.isfinite(v)
 
 
-def build_case(meta, row, init_rows=None, dump=None):
+def build_case(meta, row, init_rows=None, dump=None, more_rows=()):
     """(coq term, python-side list of item descriptions for messages) or None if the row lacks a value.
     row: the selected-output row of the reaction step; init_rows: {"i_exch": row, "i_surf": row} of the initial
     exchange / surface equilibrations (site totals are checked there as well)."""
@@ -415,6 +468,30 @@ def build_case(meta, row, init_rows=None, dump=None):
             return None
         pps.append("PP %s %s %s %s %s" % (KIND[p["kind"]], q(p["target"]), q(p["init"]), q(m), q(s)))
         items.append(("pp", p["name"], p["kind"], p["target"], p["init"], m, s))
+    # follow-up calculations (model reused): the phases of each later stage, and the site totals again
+    for stage, r2 in zip((meta.get("stages") or [])[1:], more_rows):
+        for k, p in enumerate(stage):
+            m, s = r2.get("eq%d" % k), r2.get("si%d" % k)
+            if not (_num(m) and _num(s)):
+                return None
+            pps.append("PP %s %s %s %s %s" % (KIND[p["kind"]], q(p["target"]), q(p["init"]), q(m), q(s)))
+            items.append(("pp", p["name"] + " [follow-up calculation]", p["kind"], p["target"], p["init"], m, s))
+        for what, mkey, dest in (("exch", "exch", exs), ("surf", "surf", sfs)):
+            mm = meta[mkey]
+            if not mm or mm.get("mode") == "related":
+                continue
+            for nm in sorted(mm["sites"]):
+                col = "sysX" if what == "exch" else "sys_%s" % nm
+                f = r2.get(col)
+                if not _num(f):
+                    return None
+                d0 = mm["sites"][nm]
+                dq = q(Fraction(*mm["sites_exact"][nm])) if "sites_exact" in mm else q(d0)
+                i0 = (init_rows.get("i_exch" if what == "exch" else "i_surf") or {}).get(col)
+                if _num(i0) and i0 > 0:
+                    d0, dq = i0, q(i0)      # the sites of the stored (equilibrated) reactant this calculation starts from
+                dest.append("SITE %s %s" % (dq, q(f)))
+                items.append((what, nm + " [follow-up calculation]", d0, f))
     for what, mkey, dest, irow in (("exch", "exch", exs, init_rows.get("i_exch")), ("surf", "surf", sfs, init_rows.get("i_surf"))):
         mm = meta[mkey]
         if not mm:
@@ -442,11 +519,16 @@ def build_case(meta, row, init_rows=None, dump=None):
                 continue
             d = mm["sites"][nm]
             dq = q(Fraction(*mm["sites_exact"][nm])) if "sites_exact" in mm else q(d)
-            dest.append("SITE %s %s" % (dq, q(f)))
-            items.append((what, nm, d, f))
-            if irow is not None and _num(irow.get(col)):
+            if irow is not None and _num(irow.get(col)) and irow[col] > 0:
+                # two calculations: the initial equilibration must reproduce the defined sites, and the reaction step must
+                # keep the sites of the stored reactant it starts from (= what the initial calculation saved)
                 dest.append("SITE %s %s" % (dq, q(irow[col])))
                 items.append((what, nm + " (initial equilibration)", d, irow[col]))
+                dest.append("SITE %s %s" % (q(irow[col]), q(f)))
+                items.append((what, nm + " (reaction step, vs the stored reactant)", irow[col], f))
+            else:
+                dest.append("SITE %s %s" % (dq, q(f)))
+                items.append((what, nm, d, f))
     if meta["ss"]:
         comps = []
         obs = []
@@ -587,12 +669,12 @@ def rows_by_state(res):
     for r in rows:
         if r.get("state") in ("i_exch", "i_surf"):
             init[r["state"]] = r
-    return (react[-1] if react else None), init
+    return react, init
 
 
 def evaluate(ctx, jobs):
     res = vlib.run_inputs(jobs, timeout_each=30, workers=min(6, vlib.NCPU))
-    stats = {"run": 0, "error": 0, "timeout": 0, "no_row": 0, "checked": 0, "with_stored_ss": 0}
+    stats = {"run": 0, "error": 0, "timeout": 0, "no_row": 0, "checked": 0, "with_stored_ss": 0, "model_reused": 0}
     terms, keep = [], []
     for j in jobs:
         r = res.get(j["id"]) or {}
@@ -603,11 +685,13 @@ def evaluate(ctx, jobs):
         if r.get("rc", 1) != 0 or "dberr" in r:
             stats["error"] += 1          # run ended with ERROR: outside the premises of the property
             continue
-        row, init_rows = rows_by_state(r)
-        if row is None:
+        react, init_rows = rows_by_state(r)
+        nst = len(j["meta"].get("stages") or [1])
+        if not react or len(react) != nst:
             stats["no_row"] += 1
             continue
-        bc = build_case(j["meta"], row, init_rows, r.get("dump"))
+        row = react[0]
+        bc = build_case(j["meta"], row, init_rows, r.get("dump"), react[1:])
         if bc is None:
             stats["no_row"] += 1
             continue
@@ -617,9 +701,10 @@ def evaluate(ctx, jobs):
     for (j, items, row), ok in zip(keep, verdicts):
         stats["checked"] += 1
         stats["with_stored_ss"] += any(it[0] == "ssx" for it in items)
+        stats["model_reused"] += len(j["meta"].get("stages") or [1]) > 1
         m = j["meta"]
         fp = [j["db"], len(m["pps"]), sorted(p["kind"] for p in m["pps"]), (m["exch"] or {}).get("mode"), (m["surf"] or {}).get("mode"), bool(m["ss"]),
-              [it[5] > 0 for it in items if it[0] == "pp"]]
+              len(m.get("stages") or [1]), [it[5] > 0 for it in items if it[0] == "pp"]]
         ctx.case(fp, nontrivial=any(it[0] != "pp" or it[5] > 0 for it in items), sample={"database": j["db"], "input": j["text"][:600], "reported": {k: v for k, v in row.items() if isinstance(v, float)}})
         if not ok:
             bad = py_verdict(items) or [("?", "case rejected by the verified checker")]
@@ -653,7 +738,7 @@ def run(ctx):
     if not ok:
         n = max(n, 240)       # a proof about the regenerated code broke: search harder for a concrete failing input
     jobs = corpus() + [gen_case(ctx.rng, i) for i in range(n)]
-    stats = {"run": 0, "error": 0, "timeout": 0, "no_row": 0, "checked": 0, "with_stored_ss": 0}
+    stats = {"run": 0, "error": 0, "timeout": 0, "no_row": 0, "checked": 0, "with_stored_ss": 0, "model_reused": 0}
     B = 400
     for i in range(0, len(jobs), B):
         st = evaluate(ctx, jobs[i:i + B])
